@@ -77,7 +77,7 @@ func (c *ExpressionQuoteState) EncodeString(value string, quoteSymbol rune) stri
 //	Returns: An decoded string.
 func (c *ExpressionQuoteState) DecodeString(value string, quoteSymbol rune) string {
 	runes := []rune(value)
-	if len(runes) >= 2 && runes[0] == quoteSymbol && runes[len(value)-1] == quoteSymbol {
+	if len(runes) >= 2 && runes[0] == quoteSymbol && runes[len(runes)-1] == quoteSymbol {
 		value = string(runes[1 : len(runes)-1])
 		quoteString := string(quoteSymbol)
 		value = strings.ReplaceAll(value, quoteString+quoteString, quoteString)
